@@ -49,6 +49,7 @@ type World struct {
 	RepoDir   string
 	allPkgs   []*types.Package
 	direct    map[string]*directSummary
+	nonnil    map[string]bool
 	Errors    []string
 }
 
@@ -305,3 +306,24 @@ func funcKeyOf(f *types.Func) string {
 }
 
 func (w *World) pos(p token.Pos) token.Position { return w.Fset.Position(p) }
+
+// nonNilField: the contract files declare the field (heap key F:pkg.Type.field) as never nil:
+//   type T
+//     field f nonnil
+func (w *World) nonNilField(key string) bool {
+	if w.nonnil == nil {
+		w.nonnil = map[string]bool{}
+		for _, ts := range w.TypeSpec {
+			pkg := w.Pkgs[ts.PkgPath]
+			if pkg == nil {
+				continue
+			}
+			for f, cls := range ts.Fields {
+				if strings.Contains(cls, "nonnil") {
+					w.nonnil["F:"+sanitize(pkg.Name+"."+ts.Name)+"."+f] = true
+				}
+			}
+		}
+	}
+	return w.nonnil[key]
+}
